@@ -10,6 +10,7 @@ import (
 
 	"vh/rt"
 
+	_ "vh/gram"
 	_ "vh/h15"
 	_ "vh/hself"
 )
